@@ -808,6 +808,10 @@ func isSafeForMultilineReverseSuffix(re *syntax.Regexp) bool {
 	if !isMultilineLineAnchored(re) {
 		return false
 	}
+	// The searcher works line by line: a match must not be able to span lines.
+	if canConsumeNewline(re) {
+		return false
+	}
 
 	switch re.Op {
 	case syntax.OpConcat:
@@ -842,6 +846,34 @@ func isSafeForMultilineReverseSuffix(re *syntax.Regexp) bool {
 	default:
 		return false
 	}
+}
+
+// canConsumeNewline reports whether some match of re may contain '\n'.
+func canConsumeNewline(re *syntax.Regexp) bool {
+	switch re.Op {
+	case syntax.OpAnyChar:
+		return true
+	case syntax.OpLiteral:
+		for _, r := range re.Rune {
+			if r == '\n' {
+				return true
+			}
+		}
+		return false
+	case syntax.OpCharClass:
+		for i := 0; i+1 < len(re.Rune); i += 2 {
+			if re.Rune[i] <= '\n' && '\n' <= re.Rune[i+1] {
+				return true
+			}
+		}
+		return false
+	}
+	for _, sub := range re.Sub {
+		if canConsumeNewline(sub) {
+			return true
+		}
+	}
+	return false
 }
 
 // isWildcardOp checks if the op is a wildcard pattern (.*, .+, or [charclass]+)
